@@ -11,13 +11,13 @@ import numpy as np
 
 FINITE_FEATURES = [
     'ED_all', 'ED_all_mixer', 'E_tol_to_trunc', 'P_tol_none', 'tol_bounds', 'max_S_err', 'norm_tol', 'mixer_never_disabled', 'mixer_eps',
-    'mixer_on_at_end', 'mixer_class', 'chi_list_none', 'chi_list_fn', 'via_run_1', 'via_run_2', 'shelve', 'shelve_mixer', 'nsc', 'L_big',
+    'mixer_on_at_end', 'mixer_class', 'chi_list_none', 'chi_list_fn', 'chi_list_fn_small', 'dm_mixer_1site_ZN', 'via_run_1', 'via_run_2', 'shelve', 'shelve_mixer', 'nsc', 'L_big',
     'start_env_sites_finite', 'rerun', 'reinit_env', 'reinit_env_model', 'thread', 'thread_ED', 'orth1', 'orth2_dict', 'orth_single',
     'orth_thread', 'orth_positive', 'err_active_sites', 'err_diag', 'err_thread_nohc', 'err_thread_nocombine',
 ]
 INFINITE_FEATURES = [
     'combine', 'start_env_sites', 'TM', 'start_env_0', 'noncanonical_init', 'chi_list_inf', 'norm_tol_loop', 'norm_tol_none', 'rerun_inf',
-    'resume_seq', 'resume_incompatible_psi', 'resume_other_model', 'tol_trunc_inf', 'err_orth_inf',
+    'resume_seq', 'resume_incompatible_psi', 'resume_other_model', 'tol_trunc_inf', 'err_orth_inf', 'reinit_env_inf', 'resume_seq_chi_list',
 ]
 VUMPS_FEATURES = [
     'L1', 'check_overlap_false', 'diag_gauge', 'norm_tol_tight', 'lanczos_options_alias', 'psi_uniform', 'chi_list_vumps', 'parity_vumps2',
@@ -34,7 +34,7 @@ def _strip(case):
 def gen_finite(rng, k, gen_case):
     """feature FINITE_FEATURES[k mod n] on top of a case of gen_case (model, L, initial state, engine, mixer, eigensolver options)."""
     feat = FINITE_FEATURES[k % len(FINITE_FEATURES)]
-    exact = feat in ('ED_all_mixer', 'mixer_never_disabled', 'mixer_class', 'chi_list_fn', 'via_run_2', 'L_big', 'thread', 'rerun',
+    exact = feat in ('ED_all_mixer', 'mixer_never_disabled', 'mixer_class', 'chi_list_fn', 'chi_list_fn_small', 'via_run_2', 'L_big', 'thread', 'rerun',
                      'reinit_env_model', 'start_env_sites_finite') or (feat in ('nsc', 'E_tol_to_trunc') and rng.random() < 0.5)
     case = _strip(gen_case(rng, exact=exact))
     case['feature'] = feat
@@ -118,10 +118,24 @@ def gen_finite(rng, k, gen_case):
         opts['chi_list'] = {'0': rng.choice([2, 3]), str(rng.choice([2, 3, 4])): None}
         opts['max_sweeps'] = max(opts['max_sweeps'], 8)
         opts.pop('min_sweeps', None)
-    elif feat == 'chi_list_fn':
+    elif feat == 'dm_mixer_1site_ZN':
+        # one-site engine + DensityMatrixMixer on a Z_2 charge, started from site tensors with qtotal != 0 (regauged bonds: same state)
+        case['engine'] = 'single'
+        if m['name'] not in ('tfi', 'fermion', 'longrange'):
+            case['model'] = m = {'name': 'tfi', 'J': 1.0, 'g': rng.choice([0.4, 1.7]), 'conserve': 'parity'}
+            case['init'] = [['up', 'down'][i] for i in case['init_idx']]
+        m['conserve'] = 'parity'
+        opts['mixer'] = 'DensityMatrixMixer'
+        opts['mixer_params'] = {'amplitude': 1e-3, 'decay': 2.0, 'disable_after': 3}
+        opts['min_sweeps'] = 5
+        opts['max_sweeps'] = max(opts['max_sweeps'], 7)
+        case['regauge'] = [[rng.randrange(L - 1), 1] for _ in range(rng.choice([1, 2]))]
+        case['exact'] = False
+    elif feat in ('chi_list_fn', 'chi_list_fn_small'):
         full = 2 ** (L // 2)
         chi_max = rng.choice([full, full + 3, 16])
-        case['chi_list_fn'] = [chi_max, rng.choice([2, 3, 4, 5, 20]), rng.choice([1, 2, 3])]
+        # (chi_max < dchi: the documented ramp is the single entry {0: chi_max})
+        case['chi_list_fn'] = [chi_max, rng.choice([2, 3, 4, 5]) if feat == 'chi_list_fn' else rng.choice([20, chi_max + 1, 64]), rng.choice([1, 2, 3])]
         opts['trunc_params'].pop('chi_max', None)
         opts.pop('chi_list', None)
         opts.pop('min_sweeps', None)
@@ -316,6 +330,16 @@ def gen_infinite(rng, k):
     elif feat == 'err_orth_inf':
         case['orthogonal'] = {'n': 1, 'copy_only': True}
         case['expect_error'] = 'ValueError'
+    elif feat == 'reinit_env_inf':
+        # Sweep.init_env on an engine that has run: "reuse previous environments" (infinite), then a second run()
+        case['rerun'] = 1
+        case['reinit_env'] = True
+        case['no_stop_trace'] = True
+    elif feat == 'resume_seq_chi_list':
+        case['resume_from'] = {'options': first_opts}
+        c1 = opts['trunc_params'].pop('chi_max')
+        opts['chi_list'] = {'0': 4, str(rng.choice([2, 4])): c1}
+        case['expect_warning'] = 'Re-using environment with `chi_list` set'
     return case
 
 
@@ -455,6 +479,7 @@ def exact_clause(case, r, H, mask, psi, scale, h_symmetry_labels, hist, what):
     return probs
 
 
+KEY_DM_1SITE_ZN = 'C13:SingleSiteDMRGEngine+DensityMatrixMixer:Z_N-charge:qtotal-wraps:determine_qtotal_L_R-ValueError'
 KEY_MIXER_END = 'C13:DMRGEngine.post_run_cleanup:run-ends-with-active-mixer:state-not-canonical'
 
 
@@ -472,7 +497,11 @@ def check_finite(ctx, case, r, helpers, hist):
         return
     if 'error' in r:
         ctx.count(stream, [feat, case['model'], case['L'], case['engine'], case['options']], nontrivial=True)
-        ctx.fail('oracle', 'feature %s: engine raised %s' % (feat, r['error']), dict(info, tb=r.get('tb')), match_key='C13:raises')
+        key = 'C13:raises'
+        if r['error'].startswith('ValueError: qtotal_LR must add up to') and 'determine_qtotal_L_R' in (r.get('tb') or '') and case['engine'] == 'single' \
+                and case['options'].get('mixer') == 'DensityMatrixMixer' and case['model'].get('conserve') == 'parity' and case.get('regauge'):
+            key = KEY_DM_1SITE_ZN
+        ctx.fail('oracle', 'feature %s: engine raised %s' % (feat, r['error']), dict(info, tb=r.get('tb')), match_key=key)
         return
     probs = []
     allw = ' | '.join((r.get('warnings') or []) + (r.get('log_warnings') or []))
@@ -546,14 +575,19 @@ def check_finite(ctx, case, r, helpers, hist):
         if r.get('n_ortho') != n_o:
             probs.append('engine holds %s environments for %d states to orthogonalise against' % (r.get('n_ortho'), n_o))
         exact_lower = True
+        # the projection acts on the local eigenproblem; the truncation of the new tensors afterwards discards weight err of a normalised
+        # state and can bring back an overlap of the order sqrt(err)
+        mte = max(r.get('max_trunc_err') or 0.0, 0.0)
+        tol_ov = 1e-6 + 10 * np.sqrt(mte)
+        hist['ext_orth_untruncated'] = hist.get('ext_orth_untruncated', 0) + int(mte < 1e-18)
         for j, lo in enumerate(lows):
             pl = np.array([complex(a, b) for a, b in lo['psi']])
             if abs(lo['E'] - w[j]) > 1e-8 * scale or abs(np.linalg.norm(pl) - 1) > 1e-8:
                 exact_lower = False
             ov = abs(np.vdot(pl, psi))
-            if not warned and ov > 1e-6:
-                probs.append('orthogonal_to: |<state %d|psi>| = %.3e for the returned psi' % (j, ov))
-        if not warned and any(o > 1e-6 for o in (r.get('ortho_overlaps') or [])):
+            if not warned and ov > tol_ov:
+                probs.append('orthogonal_to: |<state %d|psi>| = %.3e for the returned psi (largest truncation error of the run %.2e)' % (j, ov, mte))
+        if not warned and any(o > tol_ov for o in (r.get('ortho_overlaps') or [])):
             probs.append('orthogonal_to: MPS.overlap of the returned psi with the given states %s' % r.get('ortho_overlaps'))
         if exact_lower and not warned and len(w) > n_o:
             hist['ext_orth_exact_lower'] = hist.get('ext_orth_exact_lower', 0) + 1
@@ -567,9 +601,75 @@ def check_finite(ctx, case, r, helpers, hist):
         probs += exact_clause(cfin, r, H, mask, psi, scale, h_symmetry_labels, hist, 'two-site DMRG with mixer and the chi_list of dmrg.chi_list (last entry does not truncate)')
     elif case.get('exact') and untrunc and not ended_with_mixer and not r.get('shelve') and not case.get('orthogonal') and not case.get('any_sector'):
         probs += exact_clause(cfin, r, H, mask, psi, scale, h_symmetry_labels, hist, 'untruncated two-site DMRG with mixer (%s)' % feat)
+    elif case.get('exact') and untrunc and not ended_with_mixer and case.get('any_sector'):
+        # ED_all diagonalises the two-site problem in ALL charge sectors; with bonds grown to the full dimension (mixer, chi not
+        # truncated) the two-site problem in the middle of the chain is the full problem: the result is the overall ground state
+        Eg = np.linalg.eigvalsh(H)[0]
+        if abs(r['E'] - Eg) > 1e-7 * scale:
+            probs.append('untruncated two-site DMRG with mixer and diag_method ED_all did not reach the lowest energy of all sectors: E = %.12g, '
+                         'E0(all sectors) = %.12g (chi %s)' % (r['E'], Eg, r['chi']))
+        else:
+            hist['ext_ED_all_global_gs'] = hist.get('ext_ED_all_global_gs', 0) + 1
+    probs += check_effh(r, scale, True, r['norm_test'] <= 1e-8)
+    pt = check_lanczos_tols(case, r)
+    hist['ext_lanczos_tol_updates_checked'] = hist.get('ext_lanczos_tol_updates_checked', 0) + int('lanczos_tols_end' in r)
+    probs += pt
+    hist['effh_probes'] = hist.get('effh_probes', 0) + int(bool(r.get('effh')))
     ctx.count(stream, [feat, case['model'], case['L'], case['engine'], case['init_idx'], case['options']], nontrivial=True,
               sample={'feature': feat, 'model': case['model'], 'L': case['L'], 'engine': case['engine'], 'E': r['E'], 'E0': float(w[0]), 'sweeps': r['sweeps']})
     if probs:
         ctx.fail('oracle', 'feature %s: ' % feat + '; '.join(probs[:4]),
                  dict(info, impl={k_: r.get(k_) for k_ in ('E', 'E_mpo', 'norm_test', 'sweeps', 'chi', 'shelve', 'mixer_end', 'warnings', 'log_warnings')}),
                  match_key='C13:' + stream + ':' + feat)
+
+
+def check_effh(r, scale, finite=True, canonical=True):
+    """the effective Hamiltonians read through their other accessors on the returned state (runner: effh_probe)."""
+    probs = []
+    for name, (de, dm, da, dh, n) in sorted((r.get('effh') or {}).items()):
+        if finite and canonical and de > 1e-8 * scale:
+            probs.append('%s: <theta|H_eff|theta> differs from <psi|H|psi> by %.3e at some position' % (name, de))
+        if dm > 1e-10 * scale:
+            probs.append('%s: to_matrix() and matvec() differ by %.3e' % (name, dm))
+        if da > 1e-12 * scale:
+            probs.append('%s: adjoint().to_matrix() differs from the conjugate transpose of to_matrix() by %.3e' % (name, da))
+        if dh > 1e-9 * scale:
+            probs.append('%s: the operator handed to the eigensolver is not hermitian (%.3e)' % (name, dh))
+    return probs
+
+
+def check_lanczos_tols(case, r):
+    """DMRGEngine.run_iteration: "we update P_tol of lanczos_params to max_trunc_err * P_tol_to_trunc, restricted to the interval [P_tol_min,
+    P_tol_max]" (default of P_tol_min: max(1e-30, svd_min^2 * P_tol_to_trunc, trunc_cut^2 * P_tol_to_trunc), of P_tol_max 1e-4), the same
+    for E_tol with max_E_trunc, E_tol_to_trunc (default None: no update), E_tol_min 5e-16, E_tol_max 1e-4; evaluated for the last
+    iteration of the run (the truncation error / energy of the last sweep are reported in sweep_stats)."""
+    probs = []
+    opts = case['options']
+    end = r.get('lanczos_tols_end')
+    if not end or case.get('rerun') or r.get('shelve') is None:
+        return probs
+    tp = opts.get('trunc_params') or {}
+    ptt = opts.get('P_tol_to_trunc', 0.05)
+    terr = r.get('last_trunc_err')
+    if ptt is not None and terr is not None:
+        svd_min = tp.get('svd_min') or 0.0
+        cut = tp.get('trunc_cut') or 0.0
+        pmin = opts.get('P_tol_min', max(1e-30, svd_min ** 2 * ptt, cut ** 2 * ptt))
+        pmax = opts.get('P_tol_max', 1e-4)
+        if terr > pmin:
+            want = max(pmin, min(pmax, terr * ptt))
+            got = end.get('P_tol')
+            if got is None or abs(got - want) > 1e-9 * want:
+                probs.append('lanczos_params[P_tol] = %s after the run, documented: max_trunc_err * P_tol_to_trunc = %.3e * %s restricted to [%.1e, %.1e] = %.6e'
+                             % (got, terr, ptt, pmin, pmax, want))
+    ett = opts.get('E_tol_to_trunc')
+    etr = r.get('last_E_trunc')
+    if ett is not None and etr is not None:
+        emin, emax = opts.get('E_tol_min', 5e-16), opts.get('E_tol_max', 1e-4)
+        if etr > emin:
+            want = max(emin, min(emax, etr * ett))
+            got = end.get('E_tol')
+            if got is None or abs(got - want) > 1e-9 * want:
+                probs.append('lanczos_params[E_tol] = %s after the run, documented: max_E_trunc * E_tol_to_trunc = %.3e * %s restricted to [%.1e, %.1e] = %.6e'
+                             % (got, etr, ett, emin, emax, want))
+    return probs
